@@ -12,6 +12,7 @@ func init() {
 	register("C02", "R2", 4, "header-only classification: isHeaderOnlySpec ⇔ HEAD ∨ 1xx ∨ 204 ∨ 304; shouldChunk ⇔ HTTP/1.1 ∧ ContentLength = -1 ∧ not header-only; an unexpected body of a header-only (non-101) upstream reply is closed and replaced; the connection writer sends bodies through Response.Write only for replies that may have one", c02r2)
 	register("C02", "R3", 4, "close decision pairing in writeResponse: Close is set when shutting down or when the request asked for it and cleared only for CONNECT 2xx and 101; Close ⇒ Connection: close is added before the write; every path flushes; a write/flush error or Close ⇒ errClose, otherwise nil", c02r3)
 	register("C02", "R4", 8, "response-mutation footprint: the only writes to an in-flight response are rebinding Request, the Close flag, Connection: close, the Connection/Upgrade re-add for an upgrade reply, the upgrade body hand-over, the header-only body replacement, the relayed CONNECT rejection's protocol fields and the restored challenge", c02r4)
+	register("C02", "R6", 2, "no bytes of one exchange leak into the next: the request body is closed on every exit of an exchange (same analysis as C01.R7)", bodyClosedOnEveryExit)
 	register("C02", "R5", 5, "sibling agreement and incremental delivery: both response writers pick the event-stream flusher for text/event-stream and the chunk flusher for chunked replies; the flushing writer forwards p unmodified, flushes when the pattern ends in or spans into p, and keeps the last byte", c02r5)
 }
 
